@@ -399,6 +399,29 @@ def step [Div K] (w : World K) : Op K → Option (World K)
     let ss ← setAt w.systems s { st with pos := pos }
     pure { w with systems := ss }
 
+/-! the three things `System.box_set` does, as separate primitives (the generated `sysBoxSet` of
+    `Generated/DvectSource.lean` composes them in the order the SOURCE has them) -/
+
+/-- `self.atoms_prop('pos', scale=True)`: the positions relative to the Box the System holds NOW. -/
+def sposOf [Div K] (w : World K) (s : Nat) : Option (List (V3 K)) := do
+  let st ← w.systems[s]?
+  let b ← w.boxes[st.box]?
+  pure (st.pos.map b.cartToRel)
+
+/-- `self.box.set(vects=v, origin=o)`: the Box OBJECT the System holds is changed in place. -/
+def boxSetOf (w : World K) (s : Nat) (v : M3 K) (o : V3 K) : Option (World K) := do
+  let st ← w.systems[s]?
+  let bs ← setAt w.boxes st.box ⟨v, o⟩
+  pure { w with boxes := bs }
+
+/-- `self.atoms_prop('pos', value=spos, scale=True)`: Cartesian positions from relative ones under the Box held NOW;
+    only THIS System's positions change. -/
+def setSpos (w : World K) (s : Nat) (spos : List (V3 K)) : Option (World K) := do
+  let st ← w.systems[s]?
+  let b ← w.boxes[st.box]?
+  let ss ← setAt w.systems s { st with pos := spos.map b.relToCart }
+  pure { w with systems := ss }
+
 /-- a whole history. -/
 def run [Div K] (w : World K) : List (Op K) → Option (World K)
   | [] => some w
